@@ -328,8 +328,9 @@ func checkCharEntropy(p *core.Program, r *core.Report) {
 			f := core.StaticCallee(c)
 			okCall := f != nil && p.InLib(f) && len(c.Call.Args) == 1
 			if okCall {
+				// the copy itself (value receiver) or its address (pointer receiver)
 				ld, isLd := c.Call.Args[0].(*ssa.UnOp)
-				okCall = isLd && ld.X == ssa.Value(al) && core.InstrDominates(bc, c)
+				okCall = (isLd && ld.X == ssa.Value(al) || c.Call.Args[0] == ssa.Value(al)) && core.InstrDominates(bc, c)
 			}
 			r.Check(okCall, "R6.4", name, "required-sets count is computed on the copy the builder just prepared", pos, core.Describe(c))
 			r.Check(reqNonEmpty, "R6.4", name, "the counting path is taken iff required characters remain", pos, "")
